@@ -1,0 +1,17 @@
+// Copyright IBM Corp. 2013, 2026
+// SPDX-License-Identifier: MPL-2.0
+
+//go:build !verif
+
+package memberlist
+
+// Empty stubs for the verification hooks (see verif_hooks.go, build tag
+// "verif").
+
+func (m *Memberlist) vt(ev string, kv ...any) {}
+
+func (m *Memberlist) vg(point string) {}
+
+func (m *Memberlist) vop(op string, kv ...any) func() { return func() {} }
+
+func (a *awareness) vt(delta, before, after int) {}
